@@ -750,9 +750,11 @@ pub fn decrypt_chunk_with_keys(
     key_store: &TactKeyStore,
     block_index: usize,
 ) -> BlteResult<Vec<u8>> {
-    if data.len() < 17 {
+    // 15-byte encryption header (1 + 8 key name, 1 + 4 IV, 1 type) plus at least
+    // the inner mode byte: an encrypted chunk with an empty payload is 16 bytes
+    if data.len() < 16 {
         return Err(BlteError::CompressionError(format!(
-            "Encrypted chunk too short: {} bytes (minimum 17)",
+            "Encrypted chunk too short: {} bytes (minimum 16)",
             data.len()
         )));
     }
